@@ -275,7 +275,10 @@ var c04Alpha = []string{
 	"lw t2, 4(zero)",
 	"sw t0, 136(zero)",
 	"sw t2, 140(zero)",
-	"add t3, t0, t0", // duplicated source register
+	"add t3, t0, t0",    // duplicated source register
+	"addi zero, t0, 1",  // destination zero
+	"add t2, t0, zero",  // source zero
+	"jal t1, j%d\nj%d:", // link register written by a jump that flushes
 }
 
 var c04Core = []int{0, 1, 2, 3, 4, 7, 8, 10, 12}
@@ -289,8 +292,8 @@ func c04Programs(tier string, emit func(p pxProg)) {
 		for n := 1; n <= full; n++ {
 			seqs(len(c04Alpha), n, func(idx []int) {
 				var b []string
-				for _, k := range idx {
-					b = append(b, c04Alpha[k])
+				for i, k := range idx {
+					b = append(b, strings.ReplaceAll(c04Alpha[k], "%d", fmt.Sprint(i)))
 				}
 				emit(pxProg{Text: lines(warm, strings.Join(b, "\n"), post), Tag: fmt.Sprintf("deps-len%d", n)})
 			})
@@ -310,7 +313,7 @@ var c04Suite = &pxSuite{
 	Programs:   c04Programs,
 	Violates:   wrongResult,
 	Nontrivial: func(ref *refResult, p pxProg) bool { return ref.Deps > 1 },
-	Rule:       "PX: every sequence of length <= 3 (quick) / <= 4 (thorough) over the 13-template register-pressure alphabet (addi/add/mul/mv/sub over t0..t3 with rd=rs aliases and duplicated sources, loads that miss then hit into t0/t1/t2, stores as late readers) and of length 4 / 5 over a 9-template core, x cache pre-state {cold, lines 0 and 64 warm}, on MVP-4..8 x parallelism 1..4; oracle = every register holds the value of its last writer in program order (sequential reference) and stores saw the program-order value; non-trivial = distinct programs with at least two register dependences within a distance of two instructions",
+	Rule:       "PX: every sequence of length <= 3 (quick) / <= 4 (thorough) over the 16-template register-pressure alphabet (addi/add/mul/mv/sub over t0..t3 with rd=rs aliases, duplicated sources, zero as destination and as source, a jal whose link register is read next, loads that miss then hit into t0/t1/t2, stores as late readers) and of length 4 / 5 over a 9-template core, x cache pre-state {cold, lines 0 and 64 warm}, on MVP-4..8 x parallelism 1..4; oracle = every register holds the value of its last writer in program order (sequential reference) and stores saw the program-order value; non-trivial = distinct programs with at least two register dependences within a distance of two instructions",
 }
 
 // ------------------------------------------------------------------ C05
@@ -321,6 +324,7 @@ var c05Alpha = []string{
 	"lw t1, 64(zero)", "sw t0, 64(zero)", "lb t2, 127(zero)", "sb t0, 126(zero)",
 	"lw t2, 1024(zero)", "sw t1, 1028(zero)", "lb t0, 1087(zero)",
 	"addi t0, t0, 1",
+	"lb t2, 8191(zero)", "sw t1, 8188(zero)", // the last line of memory
 }
 
 // sweeps touch n distinct lines with stride s starting at base b (loop)
@@ -397,7 +401,7 @@ var c05Suite = &pxSuite{
 	Programs:   c05Programs,
 	Violates:   wrongResult,
 	Nontrivial: func(ref *refResult, p pxProg) bool { return ref.MemOps >= 5 },
-	Rule:       "PX: every sequence of length <= 3 (quick) / <= 4 (thorough) over the 18-template memory alphabet (lb/lh/lw/sb/sh/sw at line-relative offsets 0, 2, 4, 60, 62, 63 of lines 0, 64 and 1024, so that every first-touch offset and same-line / other-line mixes occur) with all loaded registers stored to result slots, plus sweep macros (17 or 33 distinct lines read or written by a counted loop with stride 64 / 128: more lines than L1 has ways, more than L3 has ways; write sweep followed by read sweep) x {one access before} x {one access after} from 6 (quick) / 8 templates; sweeps that read the same 18 / 34 lines twice (evicted lines fetched again); a 33-line (thorough: also 17-line) sweep followed by one load / store to each line of the sweep in turn; MVP-3..8 x parallelism 1..4 (31 configurations); oracle = flat-memory reference (every loaded value via result slots, whole final memory image); non-trivial = distinct programs with at least 5 memory accesses (3 are the result stores)",
+	Rule:       "PX: every sequence of length <= 3 (quick) / <= 4 (thorough) over the 20-template memory alphabet (lb/lh/lw/sb/sh/sw at line-relative offsets 0, 2, 4, 60, 62, 63 of lines 0, 64 and 1024 and the last word / byte of memory, so that every first-touch offset and same-line / other-line mixes occur) with all loaded registers stored to result slots, plus sweep macros (17 or 33 distinct lines read or written by a counted loop with stride 64 / 128: more lines than L1 has ways, more than L3 has ways; write sweep followed by read sweep) x {one access before} x {one access after} from 6 (quick) / 8 templates; sweeps that read the same 18 / 34 lines twice (evicted lines fetched again); a 33-line (thorough: also 17-line) sweep followed by one load / store to each line of the sweep in turn; MVP-3..8 x parallelism 1..4 (31 configurations); oracle = flat-memory reference (every loaded value via result slots, whole final memory image); non-trivial = distinct programs with at least 5 memory accesses (3 are the result stores)",
 }
 
 // ------------------------------------------------------------------ C09
